@@ -28,11 +28,20 @@ structure Disk where
   log : Log
   snap : Option (Nat × Nat × Config)            -- newest visible snapshot: label and configuration
 
+/-- does the log stop short of the snapshot's last entry, or contradict it? (a crash between the
+    publication of a received snapshot and the discard of the log: fix S21) -/
+def logMissesBoundary (l : Log) (i t : Nat) : Bool :=
+  decide (l.lastIndex < i) || (match l.get? i with
+    | some e => decide (e.term ≠ t)
+    | none => false)
+
 /-- `restore()`. -/
 def restore (n : Node) (d : Disk) : Node :=
   let n1 := { n with term := d.term, votedFor := d.vote, log := d.log }
   let n2 := match d.snap with
-    | some (i, t, c) => { n1 with snapIndex := i, snapTerm := t, commitIndex := i, lastApplied := i, config := c, committed := some c }
+    | some (i, t, c) =>
+      { n1 with snapIndex := i, snapTerm := t, commitIndex := i, lastApplied := i, config := c, committed := some c,
+                log := if logMissesBoundary n1.log i t then n1.log.discard i t else n1.log }
     | none => n1
   let r := restoreScan (n2.log.ents.filter (fun e => decide (n2.snapIndex < e.index))) n2.config n2.committed
   { n2 with config := r.1, committed := r.2 }
